@@ -31,6 +31,9 @@ DELIMS = [",", ";", "|", "\t"]
 QUOTES = ['"', "'"]
 NAME_POOL = ["a", "b2", "first_name", "city", "zip", "Order Number", "x_y", "total"]
 
+# thorough tier: additionally a coverage-guided campaign (vf/fuzz.py) over the same strategy and oracle
+FUZZ = {"runs": 3000, "procs": 8}
+
 
 def budget(tier):
     return 4000 if tier == "quick" else 64000
